@@ -4,7 +4,7 @@ EXTENDS GoTags, TLC, Json, VerifParams
 VARIABLE cs
 
 Kinds == {"number", "string", "slice"}
-Field(n, tg, v, k) == [name |-> n, tag |-> tg, val |-> v, kind |-> k, emb |-> FALSE]
+Field(n, tg, v, k) == [name |-> n, tag |-> tg, val |-> v, kind |-> k, emb |-> FALSE, eomit |-> FALSE]
 
 Cfgs == {[style |-> s, omit |-> o] : s \in {"camel", "snake"}, o \in {"never", "always", "empty", "zero"}}
 
@@ -18,6 +18,12 @@ Three == {<< Field(1, t1, "full", "number"), Field(2, t2, "full", "string"), Fie
 Embedded == {<< Field(1, t1, "full", "number"), [Field(4, t4, v4, "string") EXCEPT !.emb = TRUE], [Field(5, t5, "full", "number") EXCEPT !.emb = TRUE], Field(2, t2, "full", "string") >> :
             t1 \in {"none", "o1"}, t4 \in {"none", "first", "omit_empty"}, v4 \in {"empty", "full"}, t5 \in {"none", "o0"}, t2 \in {"none", "first"}}
 
+(* an embedded struct that is itself tagged omit: none of its fields appear *)
+EmbeddedOmit == {<< Field(1, t1, "full", "number"), [Field(4, "none", "full", "string") EXCEPT !.emb = TRUE, !.eomit = TRUE],
+                    [Field(5, t5, "full", "number") EXCEPT !.emb = TRUE, !.eomit = TRUE], Field(2, "none", "full", "string") >> :
+                  t1 \in {"none", "o1"}, t5 \in {"none", "omit_never", "first"}}
+(* a field name with letters beyond ASCII *)
+Unicode == {<< Field(20, t1, "full", "number"), Field(2, "none", "full", "string") >> : t1 \in {"none", "o1", "omit_never"}}
 (* three levels of embedding: the innermost struct contributes three fields *)
 Deep == {<< Field(1, t1, "full", "number"), [Field(3, "none", "full", "number") EXCEPT !.emb = TRUE], [Field(4, "none", "full", "string") EXCEPT !.emb = TRUE],
             [Field(5, "none", "full", "number") EXCEPT !.emb = TRUE], Field(2, t2, "full", "string") >> : t1 \in {"none", "o1"}, t2 \in {"none", "first"}}
@@ -26,7 +32,7 @@ Deep == {<< Field(1, t1, "full", "number"), [Field(3, "none", "full", "number") 
 Wide == {[i \in 1..14 |-> Field(5 + i, IF i = a THEN "o1" ELSE IF i = b THEN "first" ELSE "none", "full", "number")] :
            a \in {3, 9, 14}, b \in {1, 7, 12}}
 
-Cases == {[fields |-> fs, cfg |-> c] : fs \in Two \cup TwoSlice \cup Three \cup Embedded \cup Deep \cup Wide, c \in Cfgs}
+Cases == {[fields |-> fs, cfg |-> c] : fs \in Two \cup TwoSlice \cup EmbeddedOmit \cup Unicode \cup Three \cup Embedded \cup Deep \cup Wide, c \in Cfgs}
 
 Init == cs = [fields |-> <<>>, cfg |-> [style |-> "", omit |-> ""]]
 Next == cs.fields = <<>> /\ cs' \in Cases
